@@ -42,6 +42,7 @@ def main():
     ap.add_argument('--tier', default='quick')
     ap.add_argument('--tests', action='store_true')
     ap.add_argument('--keep', action='store_true')
+    ap.add_argument('--demo', help='demo program: must exit 0 on /repo and non-zero on the patched copy')
     ap.add_argument('--seed', default='1')
     a = ap.parse_args()
     d = make_scratch()
@@ -54,6 +55,14 @@ def main():
         if a.tests:
             missing = run_tests(d)
             print('pinned tests: %s' % ('all 37 stable tests pass' if not missing else 'FAILING: %s' % missing))
+        if a.demo:
+            r0 = subprocess.run(['/venv/bin/python', os.path.abspath(a.demo)], env=dict(os.environ, PYTHONPATH='/repo'),
+                                cwd=d, stdout=subprocess.PIPE, stderr=subprocess.STDOUT, universal_newlines=True)
+            r1 = subprocess.run(['/venv/bin/python', os.path.abspath(a.demo)], env=dict(os.environ, PYTHONPATH=d),
+                                cwd=d, stdout=subprocess.PIPE, stderr=subprocess.STDOUT, universal_newlines=True)
+            print('demo: clean exit=%d (%s)  patched exit=%d (%s)' % (
+                r0.returncode, (r0.stdout.strip().splitlines() or [''])[-1][:80],
+                r1.returncode, (r1.stdout.strip().splitlines() or [''])[-1][:80]))
         for pid in a.ids.split(','):
             out = os.path.join(d, 'out'); os.makedirs(out, exist_ok=True)
             env = dict(os.environ, VERIF_REPO=d, VERIF_OUT=out, VERIF_SEED=a.seed)
